@@ -13,7 +13,7 @@ import (
 
 // C13 — graceful shutdown is clean from every lifecycle state.
 
-var c13States = []string{"hc-retrying", "rm-waiting", "idle", "consumer-blocked", "save-held", "save-failing", "reb-in-BSS", "reb-after-ASS", "reb-in-delay", "reb-in-BSStart", "reb-after-ARE", "mid-traffic", "end-during-close", "notify-during-close", "signal-after-close", "signal-only", "close-during-reopen-retry", "map-change-at-close"}
+var c13States = []string{"hc-retrying", "rm-waiting", "idle", "consumer-blocked", "save-held", "save-failing", "reb-in-BSS", "reb-after-ASS", "reb-in-delay", "reb-in-BSStart", "reb-after-ARE", "mid-traffic", "end-during-close", "notify-during-close", "signal-after-close", "signal-only", "close-during-reopen-retry", "map-change-at-close", "close-at-once"}
 
 type c13Cfg struct {
 	RM, HC, API, Auto bool
@@ -97,6 +97,12 @@ func c13Spec(rng *rand.Rand, state string, c c13Cfg) *SessSpec {
 		h := []string{"BSS", "ASS"}[rng.Intn(2)]
 		sp.Steps = append(sp.Steps, Step{Op: "holdeh", Sel: h}, Step{Op: "closeasync"}, Step{Op: "waitheld", Sel: h},
 			Step{Op: "notify", Sel: "put", N: 1, VB: 2, Ms: 1}, Step{Op: "sleep", Ms: 80}, Step{Op: "releaseeh"})
+	case "close-at-once":
+		// Close() right after the client signalled readiness, while the rollback mitigation is still collecting the
+		// failover logs it starts from (the node answers them slowly)
+		sp.RollbackMitigation = true
+		sp.FailoverLogDelayMs = 300
+		sp.Steps = nil
 	case "map-change-at-close":
 		// the cluster publishes a newer map revision right before Close(); Close() stops the rollback mitigation and is then held
 		// (inside AfterStreamStop, connections still open) longer than the mitigation's map-watch interval: whatever the
